@@ -32,7 +32,7 @@ CONSTANTS Keys,        \* set of key strings
           Mode,        \* "asfound" | "repaired" | "either"
           Alphabet     \* operations enabled in this configuration
 
-AllOps == {"set", "del", "pop", "popitem", "update", "setdefault", "clear", "mutate", "flush", "reload", "reopen", "crash"}
+AllOps == {"set", "del", "pop", "popd", "popitem", "update", "setdefault", "clear", "mutate", "flush", "reload", "reopen", "crash"}
 Vals == 1..NV
 Absent == [k \in Keys |-> 0]
 
@@ -87,6 +87,13 @@ Pop(k) ==
        ELSE UNCHANGED <<cache, disk, want>> /\ out' = R(0, "", TRUE, Absent)
     /\ UNCHANGED <<fin, stale>> /\ Quiet
     /\ Log(E("pop", k, 0, Absent, out'))
+\* d.pop(k, default): the stored value (removed) when present, the default (nothing changes) when absent -- whatever the
+\* default is, also when it equals (or is) the stored value
+PopD(k, v) ==
+    /\ IF cache[k] # 0 THEN Remove(k) /\ out' = R(cache[k], "", FALSE, Absent)
+       ELSE UNCHANGED <<cache, disk, want>> /\ out' = R(v, "", FALSE, Absent)
+    /\ UNCHANGED <<fin, stale>> /\ Quiet
+    /\ Log(E("popd", k, v, Absent, out'))
 \* d.popitem(): some present item (which one is the dict's business); KeyError when empty
 PopItem(k) ==
     /\ cache[k] # 0
@@ -172,6 +179,7 @@ Next ==
     /\ \/ "set" \in Alphabet /\ \E k \in Keys, v \in Vals : Set(k, v)
        \/ "del" \in Alphabet /\ \E k \in Keys : Del(k)
        \/ "pop" \in Alphabet /\ \E k \in Keys : Pop(k)
+       \/ "popd" \in Alphabet /\ \E k \in Keys, v \in Vals : PopD(k, v)
        \/ "popitem" \in Alphabet /\ ((\E k \in Keys : PopItem(k)) \/ PopItemEmpty)
        \/ "update" \in Alphabet /\ \E m \in Maps : Update(m)
        \/ "setdefault" \in Alphabet /\ \E k \in Keys, v \in Vals : SetDefault(k, v)
